@@ -12,3 +12,4 @@ def run(prog, res, tier):
     nn = Nullness(prog)
     c06.r6_lookup_results(prog, res, reachable, nn, rule="R6.lookup_result_tested")
     c06.r6_nullable_elements(prog, res, reachable, nn)
+    c06.r6_null_initialised(prog, res, reachable, nn)
